@@ -133,6 +133,7 @@ func parseClaims(t []string) psatoken.IClaims {
 	if len(t) < nClaimTok {
 		panic("short claims token list")
 	}
+	var clientV, lcV int64
 	var client *int32
 	if t[tClient] != "_" {
 		v, err := strconv.ParseInt(t[tClient], 10, 32)
@@ -141,6 +142,7 @@ func parseClaims(t []string) psatoken.IClaims {
 		}
 		w := int32(v)
 		client = &w
+		clientV = int64(v)
 	}
 	var lc *uint16
 	if t[tLc] != "_" {
@@ -150,6 +152,7 @@ func parseClaims(t []string) psatoken.IClaims {
 		}
 		w := uint16(v)
 		lc = &w
+		lcV = int64(v)
 	}
 	str := func(s string) *string {
 		if s == "_" {
@@ -168,8 +171,10 @@ func parseClaims(t []string) psatoken.IClaims {
 	}
 	switch t[tKind] {
 	case "1":
-		c := &psatoken.P1Claims{ClientID: client, SecurityLifeCycle: lc, ImplID: parseOptHexTok(t[tImpl]), BootSeed: parseOptHexTok(t[tBoot]),
+		c := &psatoken.P1Claims{ImplID: parseOptHexTok(t[tImpl]), BootSeed: parseOptHexTok(t[tBoot]),
 			CertificationReference: str(t[tCert]), SwComponents: parseSwcs(t[tSwc]), InstID: parseOptHexTok(t[tInst]), VSI: str(t[tVsi]), CanonicalProfile: canon}
+		setIntPtrField(c, "ClientID", client != nil, clientV)
+		setIntPtrField(c, "SecurityLifeCycle", lc != nil, lcV)
 		switch {
 		case t[tProfile] == "_":
 		case t[tProfile][0] == 's':
@@ -179,8 +184,7 @@ func parseClaims(t []string) psatoken.IClaims {
 		}
 		if t[tNosw] != "_" {
 			v, _ := strconv.ParseUint(t[tNosw], 10, 64)
-			w := uint(v)
-			c.NoSwMeasurements = &w
+			setIntPtrField(c, "NoSwMeasurements", true, int64(v))
 		}
 		if hasNonce {
 			if len(nonces) != 1 {
@@ -190,8 +194,10 @@ func parseClaims(t []string) psatoken.IClaims {
 		}
 		return c
 	case "2":
-		c := &psatoken.P2Claims{ClientID: client, SecurityLifeCycle: lc, ImplID: parseOptHexTok(t[tImpl]), BootSeed: parseOptHexTok(t[tBoot]),
+		c := &psatoken.P2Claims{ImplID: parseOptHexTok(t[tImpl]), BootSeed: parseOptHexTok(t[tBoot]),
 			CertificationReference: str(t[tCert]), SwComponents: parseSwcs(t[tSwc]), VSI: str(t[tVsi]), CanonicalProfile: canon}
+		setIntPtrField(c, "ClientID", client != nil, clientV)
+		setIntPtrField(c, "SecurityLifeCycle", lc != nil, lcV)
 		switch {
 		case t[tProfile] == "_":
 		case t[tProfile] == "z":
